@@ -24,11 +24,14 @@ package responder
 import (
 	"bytes"
 	"errors"
+	"fmt"
 	"io"
 	golog "log"
 	"math/rand"
 	"net"
 	"os"
+	"runtime"
+	"sync"
 	"sync/atomic"
 	"testing"
 	"time"
@@ -55,6 +58,10 @@ type verifC11Resp struct {
 	answers atomic.Int64
 	calls   atomic.Int64
 	serveEr chan error
+
+	dead       atomic.Bool // a control query stayed unanswered: stop sending
+	controlsOK atomic.Int64
+	lastClass  atomic.Value
 }
 
 type verifC11Sock struct {
@@ -302,30 +309,68 @@ func (h *verifC11Resp) verifPreflight(in []byte) string {
 	return out + "/answered"
 }
 
-func (h *verifC11Resp) verifPing(s *verifC11Sock) bool {
+// verifControlOn sends a query that a healthy responder always answers (a name it is not authoritative
+// for: NXDOMAIN) on the socket and waits for the answer.
+func (h *verifC11Resp) verifControlOn(c *net.UDPConn, id uint16, wait time.Duration) bool {
+	name, _ := dns.ParseName("ping.example.net")
+	q := &dns.Message{ID: id, Flags: 0x0100, Question: []dns.Question{{Name: name, Type: dns.RRTypeTXT, Class: dns.ClassIN}}}
+	b, err := q.WireFormat()
+	if err != nil {
+		panic("verif infrastructure: " + err.Error())
+	}
+	c.Write(b)
+	h.pings.Add(1)
+	c.SetReadDeadline(time.Now().Add(wait))
 	buf := make([]byte, 4096)
-	for try := 0; try < 3; try++ {
-		id := uint16(0xf000 + try)
-		// a query for a name we are not authoritative for is always answered (NXDOMAIN)
-		name, _ := dns.ParseName("ping.example.net")
-		q := &dns.Message{ID: id, Flags: 0x0100, Question: []dns.Question{{Name: name, Type: dns.RRTypeTXT, Class: dns.ClassIN}}}
-		b, err := q.WireFormat()
+	for {
+		n, err := c.Read(buf)
+		if err != nil {
+			return false
+		}
+		h.answers.Add(1)
+		if n >= 2 && buf[0] == byte(id>>8) && buf[1] == byte(id) {
+			return true
+		}
+	}
+}
+
+// verifPing is the CONTROL exchange: it must be answered.  If it is not, it is retried twice on a
+// fresh socket; if that fails too the stacks decide: the receive loop parked in a channel operation /
+// select / lock instead of its socket read on three scans = the responder hangs (violation, with the
+// stack); anything else = inconclusive.  Either way the run stops sending (h.dead).
+func (h *verifC11Resp) verifPing(s *verifC11Sock) bool {
+	if h.dead.Load() {
+		return false
+	}
+	if h.verifControlOn(s.c, 0xf000, 10*time.Second) {
+		h.controlsOK.Add(1)
+		return true
+	}
+	for try := 1; try <= 2; try++ {
+		uc, err := net.DialUDP("udp", nil, h.addr)
 		if err != nil {
 			panic("verif infrastructure: " + err.Error())
 		}
-		s.c.Write(b)
-		h.pings.Add(1)
-		s.c.SetReadDeadline(time.Now().Add(20 * time.Second))
-		for {
-			n, err := s.c.Read(buf)
-			if err != nil {
-				break
-			}
-			h.answers.Add(1)
-			if n >= 2 && buf[0] == byte(id>>8) && buf[1] == byte(id) {
-				return true
-			}
+		ok := h.verifControlOn(uc, uint16(0xf000+try), 10*time.Second)
+		uc.Close()
+		if ok {
+			h.controlsOK.Add(1)
+			h.rec.Count("controls_answered_only_on_retry", 1)
+			return true
 		}
+	}
+	if !h.dead.CompareAndSwap(false, true) {
+		return false
+	}
+	blocked, found, state, stack := kit.C11LoopBlocked("responder.(*Responder).RecvAndRespond", "RecvAndRespond.func")
+	lingering := len(kit.InFunc(kit.Stacks(), "RecvAndRespond.func1"))
+	d := map[string]interface{}{"receive_loop_found": found, "receive_loop_state": state, "receive_loop_stack": stack, "request_goroutines_alive": lingering,
+		"datagrams_sent_so_far": h.sent.Load(), "controls_answered_so_far": h.controlsOK.Load(), "last_junk_class": h.lastClass.Load()}
+	if found && blocked {
+		h.rec.Violation("hang:dns-responder:receive-loop-blocked", "a well-formed control query got no answer (3 attempts, 2 on fresh sockets): the responder's receive loop is parked in ["+state+
+			"], not in its socket read – it will never answer a query again", d)
+	} else {
+		h.rec.Inconclusive("a well-formed control query got no answer (3 attempts) but the receive loop is not stably parked outside its socket read", d)
 	}
 	return false
 }
@@ -338,6 +383,9 @@ func (h *verifC11Resp) verifExec(c *kit.C11Case) string {
 	out := h.verifPreflight(append([]byte(nil), in...)) // a panic here is caught by the runner; the datagram is then not sent
 	if h.rec == nil {
 		return out
+	}
+	if h.dead.Load() {
+		return out + "/not-sent(responder no longer answers)"
 	}
 	var s *verifC11Sock
 	select {
@@ -356,9 +404,7 @@ func (h *verifC11Resp) verifExec(c *kit.C11Case) string {
 	}
 	if s.since >= 32 {
 		s.since = 0
-		if !h.verifPing(s) {
-			h.rec.Inconclusive("a well-formed DNS query got no answer within 3 x 20 s although the process is alive (datagram loss?)", nil)
-		}
+		h.verifPing(s) // decides itself (violation / inconclusive) when the control is not answered
 	}
 	select {
 	case h.pool <- s:
@@ -371,19 +417,21 @@ func (h *verifC11Resp) verifExec(c *kit.C11Case) string {
 func TestVerifC11Responder(t *testing.T) {
 	rec := kit.NewRec("C11", "dns-responder")
 	defer rec.Close()
-	h := verifC11Setup(t, true)
+	h := verifC11Setup(t, true) // ONE responder for the whole run, never restarted
 	h.rec = rec
+	h.lastClass.Store("")
+	h.verifAlive(t) // still answering after bursts of every kind of junk?
 	kit.C11Drive(rec, kit.C11Entry{Name: verifC11Entry, N: kit.Tier(40000, 1000000), Workers: 4, Budget: 120 * time.Second,
 		Gen: h.verifGen, Exec: h.verifExec, SampleEvery: 5000})
-	uc, err := net.DialUDP("udp", nil, h.addr)
-	if err != nil {
-		t.Fatal(err)
-	}
-	if !h.verifPing(&verifC11Sock{c: uc}) {
-		rec.Inconclusive("the final well-formed DNS query got no answer within 3 x 20 s", nil)
-	}
-	if left := kit.WaitNoGoroutineIn(60*time.Second, "RecvAndRespond.func1"); left != nil {
-		rec.Inconclusive("request goroutines of the responder still running 60 s after the last datagram", map[string]interface{}{"count": len(left), "first": left[0].Raw})
+	if !h.dead.Load() {
+		uc, err := net.DialUDP("udp", nil, h.addr)
+		if err != nil {
+			t.Fatal(err)
+		}
+		h.verifPing(&verifC11Sock{c: uc})
+		if left := kit.WaitNoGoroutineIn(60*time.Second, "RecvAndRespond.func1"); left != nil {
+			rec.Inconclusive("request goroutines of the responder still running 60 s after the last datagram", map[string]interface{}{"count": len(left), "first": left[0].Raw})
+		}
 	}
 	select {
 	case err := <-h.serveEr:
@@ -392,8 +440,200 @@ func TestVerifC11Responder(t *testing.T) {
 	}
 	rec.Count("datagrams_sent", int(h.sent.Load()))
 	rec.Count("pings_sent", int(h.pings.Load()))
+	rec.Count("controls_answered", int(h.controlsOK.Load()))
 	rec.Count("answers_received", int(h.answers.Load()))
 	rec.Count("callback_calls", int(h.calls.Load()))
+}
+
+// ---- "still alive after junk" -----------------------------------------------------------------------
+//
+// The one responder of this run is fed bursts of datagrams of every class that takes an early exit in
+// the request goroutine (and of the classes that are answered), 300, 1 000 and 5 000 of each and mixed,
+// from one socket and from four sockets at once.  Datagrams go out in chunks small enough for the
+// server's socket buffer; after every chunk and at the end of every burst a CONTROL query is sent that a
+// healthy responder answers (verifPing: unanswered => retried on fresh sockets => stack scan).  After a
+// burst has settled the request goroutines still alive are counted: more than 10 000 lingering, parked,
+// on three scans = resource:goroutines-leaked.
+
+type verifC11Junk struct {
+	name string
+	gen  func(h *verifC11Resp, r *rand.Rand) []byte
+}
+
+func (h *verifC11Resp) verifFramedQuery(framed []byte, domain dns.Name, mod func(q *dns.Message)) []byte {
+	name, ok := h.verifName(framed, domain, false)
+	if !ok {
+		panic("verif infrastructure: junk payload does not fit a name")
+	}
+	q := &dns.Message{ID: uint16(0x100), Flags: 0x0100, Question: []dns.Question{{Name: name, Type: dns.RRTypeTXT, Class: dns.ClassIN}},
+		Additional: []dns.RR{{Name: dns.Name{}, Type: dns.RRTypeOPT, Class: 4096, TTL: 0, Data: []byte{}}}}
+	if mod != nil {
+		mod(q)
+	}
+	b, err := q.WireFormat()
+	if err != nil {
+		panic("verif infrastructure: " + err.Error())
+	}
+	return b
+}
+
+func (h *verifC11Resp) verifNoiseQuery(r *rand.Rand, first byte, mod func(q *dns.Message)) []byte {
+	pt := make([]byte, 1+r.Intn(40))
+	r.Read(pt)
+	pt[0] = first
+	framed, err := msgformat.AddRequestFormat(h.verifNoise(pt))
+	if err != nil {
+		panic("verif infrastructure: " + err.Error())
+	}
+	return h.verifFramedQuery(framed, h.domain, mod)
+}
+
+var verifC11JunkClasses = []verifC11Junk{
+	{"qr-bit-set(no answer)", func(h *verifC11Resp, r *rand.Rand) []byte {
+		return h.verifNoiseQuery(r, 2, func(q *dns.Message) { q.Flags |= 0x8000 })
+	}},
+	{"bad-length-prefix(dropped)", func(h *verifC11Resp, r *rand.Rand) []byte {
+		p := make([]byte, 12)
+		r.Read(p)
+		p[0] = 200 // announces more than follows
+		return h.verifFramedQuery(p, h.domain, nil)
+	}},
+	{"invalid-noise-payload(dropped)", func(h *verifC11Resp, r *rand.Rand) []byte {
+		p := make([]byte, 1+48+r.Intn(20))
+		r.Read(p)
+		p[0] = byte(len(p) - 1)
+		return h.verifFramedQuery(p, h.domain, nil)
+	}},
+	{"registrar-refuses(dropped)", func(h *verifC11Resp, r *rand.Rand) []byte { return h.verifNoiseQuery(r, 0, nil) }},
+	{"answer-exceeds-16-bit-length(dropped)", func(h *verifC11Resp, r *rand.Rand) []byte { return h.verifNoiseQuery(r, 5, nil) }},
+	{"answer-exceeds-udp-limit(answered empty)", func(h *verifC11Resp, r *rand.Rand) []byte { return h.verifNoiseQuery(r, 4, nil) }},
+	{"valid(answered)", func(h *verifC11Resp, r *rand.Rand) []byte { return h.verifNoiseQuery(r, 2, nil) }},
+	{"wrong-domain(nxdomain)", func(h *verifC11Resp, r *rand.Rand) []byte {
+		d, _ := dns.ParseName("other.example.org")
+		return h.verifFramedQuery([]byte{3, 1, 2, 3}, d, nil)
+	}},
+	{"truncated", func(h *verifC11Resp, r *rand.Rand) []byte {
+		b := h.verifNoiseQuery(r, 2, nil)
+		return b[:1+r.Intn(len(b)-1)]
+	}},
+	{"oversized", func(h *verifC11Resp, r *rand.Rand) []byte {
+		b := make([]byte, 4097+r.Intn(2000))
+		r.Read(b)
+		b[2] &^= 0x80
+		return b
+	}},
+	{"zero-length", func(h *verifC11Resp, r *rand.Rand) []byte { return []byte{} }},
+	{"random", func(h *verifC11Resp, r *rand.Rand) []byte { return kit.C11Random(r, 300) }},
+	{"no-opt/small-payload-size(formerr)", func(h *verifC11Resp, r *rand.Rand) []byte {
+		return h.verifNoiseQuery(r, 2, func(q *dns.Message) {
+			if r.Intn(2) == 0 {
+				q.Additional = nil
+			} else {
+				q.Additional[0].Class = 512
+			}
+		})
+	}},
+}
+
+func (h *verifC11Resp) verifBurst(class string, n, sockets int, gen func(r *rand.Rand) (string, []byte)) bool {
+	var wg sync.WaitGroup
+	okAll := atomic.Bool{}
+	okAll.Store(true)
+	for k := 0; k < sockets; k++ {
+		wg.Add(1)
+		go func(k int) {
+			defer wg.Done()
+			r := kit.Rand(fmt.Sprintf("c11-alive/%s/%d/%d/%d", class, n, sockets, k))
+			uc, err := net.DialUDP("udp", nil, h.addr)
+			if err != nil {
+				panic("verif infrastructure: " + err.Error())
+			}
+			defer uc.Close()
+			s := &verifC11Sock{c: uc}
+			inChunk, bytesInChunk := 0, 0
+			for i := k; i < n; i += sockets {
+				if h.dead.Load() {
+					okAll.Store(false)
+					return
+				}
+				cls, b := gen(r)
+				h.lastClass.Store(cls)
+				uc.Write(b)
+				h.sent.Add(1)
+				h.rec.Count("junk_sent["+cls+"]", 1)
+				inChunk++
+				bytesInChunk += len(b) + 800
+				// keep what is in flight per socket well inside the server's socket buffer
+				if inChunk >= 100/sockets+8 || bytesInChunk > 100000/sockets {
+					inChunk, bytesInChunk = 0, 0
+					if !h.verifPing(s) {
+						okAll.Store(false)
+						return
+					}
+				}
+			}
+			if !h.verifPing(s) {
+				okAll.Store(false)
+			}
+		}(k)
+	}
+	wg.Wait()
+	return okAll.Load()
+}
+
+func (h *verifC11Resp) verifAlive(t *testing.T) {
+	rec := h.rec
+	base := runtime.NumGoroutine()
+	settle := func(what string) {
+		// wait until the request goroutines of the burst are gone (or stop going)
+		deadline := time.Now().Add(20 * time.Second)
+		for runtime.NumGoroutine() > base+50 && time.Now().Before(deadline) {
+			time.Sleep(5 * time.Millisecond)
+		}
+		if n := runtime.NumGoroutine() - base; n > 10000 {
+			stable, parked, sample := kit.C11Lingering("RecvAndRespond.func1")
+			d := map[string]interface{}{"after": what, "request_goroutines_lingering": stable, "of_them_parked": parked, "sample_stack": sample}
+			if stable > 10000 && parked > 10000 {
+				rec.Violation("resource:goroutines-leaked:dns-responder", fmt.Sprintf("%d request goroutines of the responder linger, parked, after the burst has settled (three scans)", parked), d)
+			} else {
+				rec.Inconclusive("many goroutines after a burst, but not stably parked request goroutines", d)
+			}
+		}
+	}
+	sizes := []struct{ n, sockets int }{{300, 1}, {1000, 1}, {1000, 4}, {5000, 4}}
+	bursts := 0
+	for _, jc := range verifC11JunkClasses {
+		jc := jc
+		for _, sz := range sizes {
+			what := fmt.Sprintf("%d x %s from %d socket(s)", sz.n, jc.name, sz.sockets)
+			rec.Case(map[string]interface{}{"alive_after_junk": what})
+			ok := h.verifBurst(jc.name, sz.n, sz.sockets, func(r *rand.Rand) (string, []byte) { return jc.name, jc.gen(h, r) })
+			bursts++
+			rec.Count("evaluations", sz.n)
+			rec.Distinct("nontrivial", "alive-after-junk", jc.name, sz.n, sz.sockets)
+			if !ok {
+				return
+			}
+			settle(what)
+		}
+	}
+	for _, sz := range append(sizes, struct{ n, sockets int }{kit.Tier(5000, 100000), 1}) {
+		what := fmt.Sprintf("%d x mixed from %d socket(s)", sz.n, sz.sockets)
+		rec.Case(map[string]interface{}{"alive_after_junk": what})
+		ok := h.verifBurst("mixed", sz.n, sz.sockets, func(r *rand.Rand) (string, []byte) {
+			jc := verifC11JunkClasses[r.Intn(len(verifC11JunkClasses))]
+			return jc.name, jc.gen(h, r)
+		})
+		bursts++
+		rec.Count("evaluations", sz.n)
+		rec.Distinct("nontrivial", "alive-after-junk", "mixed", sz.n, sz.sockets)
+		if !ok {
+			return
+		}
+		settle(what)
+	}
+	rec.Count("alive_after_junk_bursts", bursts)
+	rec.Sample(map[string]interface{}{"entry": "alive-after-junk", "bursts": bursts, "controls_answered": h.controlsOK.Load(), "goroutines_before": base, "goroutines_after": runtime.NumGoroutine()})
 }
 
 func FuzzVerifC11Responder(f *testing.F) {
